@@ -177,6 +177,15 @@ type tvMap map[string]string
 
 type tvUnknown struct{ why string }
 
+// tvList: the elements of a variadic parameter that are not plain code points (spans, other sets).
+type tvList []interface{}
+
+// tvStruct: a small struct value of the module used as data in a table (a span of code points).
+type tvStruct struct{ fields []interface{} }
+
+// tvFunc: a method expression used as a value ((*bitset.BitSet).Set handed to a helper).
+type tvFunc struct{ full string }
+
 type tabEnv struct {
 	c       *Ctx
 	globals map[types.Object]interface{}
@@ -188,6 +197,9 @@ type tabEnv struct {
 	returned bool
 	decls    map[*types.Func]*ast.FuncDecl
 	declPkg  map[*types.Func]*packages.Package
+	// constructors of PercentEncodeSet whose bodies the evaluator interpreted (instead of assuming their meaning)
+	interpreted map[string]bool
+	assumed     map[string]bool
 }
 
 // helperDecl finds the declaration of a module function (tables may be built through small helpers).
@@ -256,14 +268,24 @@ func (e *tabEnv) callHelper(pk *packages.Package, call *ast.CallExpr, fn *types.
 			continue
 		}
 		var xs []int64
+		ints := true
 		for _, a := range call.Args[i:] {
 			v, ok := e.constInt(pk, a)
 			if !ok {
-				return nil, false
+				ints = false
+				break
 			}
 			xs = append(xs, v)
 		}
-		vals = append(vals, xs)
+		if ints {
+			vals = append(vals, xs)
+			continue
+		}
+		var lst tvList
+		for _, a := range call.Args[i:] {
+			lst = append(lst, e.eval(pk, a))
+		}
+		vals = append(vals, lst)
 	}
 	var rv interface{}
 	if recv != nil {
@@ -272,6 +294,13 @@ func (e *tabEnv) callHelper(pk *packages.Package, call *ast.CallExpr, fn *types.
 	for _, v := range append(append([]interface{}(nil), vals...), rv) {
 		if _, bad := v.(tvUnknown); bad {
 			return v, true
+		}
+		if l, ok := v.(tvList); ok {
+			for _, x := range l {
+				if _, bad := x.(tvUnknown); bad {
+					return x, true
+				}
+			}
 		}
 	}
 	// bind
@@ -329,6 +358,22 @@ func (e *tabEnv) constInt(pk *packages.Package, x ast.Expr) (int64, bool) {
 		if v, ok := e.locals[o].(int64); ok {
 			return v, true
 		}
+	case *ast.SelectorExpr:
+		if fo, ok := pk.TypesInfo.Uses[y.Sel].(*types.Var); ok && fo.IsField() {
+			if id, ok := ast.Unparen(y.X).(*ast.Ident); ok {
+				if sv, ok := e.locals[pk.TypesInfo.Uses[id]].(*tvStruct); ok {
+					if st, ok := structOf(pk.TypesInfo.Types[y.X].Type); ok {
+						for i := 0; i < st.NumFields() && i < len(sv.fields); i++ {
+							if st.Field(i) == fo {
+								if v, ok := sv.fields[i].(int64); ok {
+									return v, true
+								}
+							}
+						}
+					}
+				}
+			}
+		}
 	}
 	return 0, false
 }
@@ -349,11 +394,32 @@ func (e *tabEnv) eval(pk *packages.Package, x ast.Expr) interface{} {
 			return v
 		}
 		return e.unk("identifier "+y.Name+" has no table value", y, pk)
+	case *ast.UnaryExpr:
+		if y.Op == token.AND {
+			if cl, ok := ast.Unparen(y.X).(*ast.CompositeLit); ok {
+				return e.eval(pk, cl)
+			}
+		}
 	case *ast.SelectorExpr:
 		// pkg.Global
 		if o, ok := info.Uses[y.Sel].(*types.Var); ok {
 			if v, ok := e.globals[o]; ok {
 				return v
+			}
+			// field of a set being built: by the field's type (the counter, or the bit set)
+			if o.IsField() {
+				if ps, ok := e.eval(pk, y.X).(*tvPES); ok {
+					if _, isPtr := o.Type().Underlying().(*types.Pointer); isPtr {
+						return ps.bs
+					}
+					return ps.allBelow
+				}
+			}
+		}
+		// method expression (*T).M
+		if sel, ok := info.Selections[y]; ok && sel.Kind() == types.MethodExpr {
+			if f, ok := sel.Obj().(*types.Func); ok {
+				return tvFunc{f.FullName()}
 			}
 		}
 		return e.unk("selector "+types.ExprString(y)+" has no table value", y, pk)
@@ -373,6 +439,56 @@ func (e *tabEnv) eval(pk *packages.Package, x ast.Expr) interface{} {
 				m[constant.StringVal(k.Value)] = constant.StringVal(v.Value)
 			}
 			return m
+		}
+		if st, ok := info.Types[y].Type.Underlying().(*types.Struct); ok && namedOf(info.Types[y].Type) != "PercentEncodeSet" {
+			sv := &tvStruct{fields: make([]interface{}, st.NumFields())}
+			for i, el := range y.Elts {
+				idx := i
+				val := el
+				if kv, ok := el.(*ast.KeyValueExpr); ok {
+					fo, _ := info.Uses[kv.Key.(*ast.Ident)].(*types.Var)
+					idx = -1
+					for j := 0; j < st.NumFields(); j++ {
+						if st.Field(j) == fo {
+							idx = j
+						}
+					}
+					val = kv.Value
+				}
+				if idx < 0 || idx >= st.NumFields() {
+					return e.unk("field of a struct literal", el, pk)
+				}
+				sv.fields[idx] = e.eval(pk, val)
+			}
+			return sv
+		}
+		if namedOf(info.Types[y].Type) == "PercentEncodeSet" {
+			ps := &tvPES{bs: &tvBitset{bits: map[int64]bool{}}}
+			for _, el := range y.Elts {
+				kv, ok := el.(*ast.KeyValueExpr)
+				if !ok {
+					return e.unk("positional field in a set literal", el, pk)
+				}
+				fo, _ := info.Uses[kv.Key.(*ast.Ident)].(*types.Var)
+				if fo == nil {
+					return e.unk("field of a set literal", el, pk)
+				}
+				v := e.eval(pk, kv.Value)
+				if _, isPtr := fo.Type().Underlying().(*types.Pointer); isPtr {
+					b, ok := v.(*tvBitset)
+					if !ok {
+						return e.unk("bit set of a set literal", el, pk)
+					}
+					ps.bs = b
+				} else {
+					n, ok := v.(int64)
+					if !ok {
+						return e.unk("counter of a set literal", el, pk)
+					}
+					ps.allBelow = n
+				}
+			}
+			return ps
 		}
 		return e.unk("composite literal", y, pk)
 	case *ast.CallExpr:
@@ -407,9 +523,46 @@ func (e *tabEnv) call(pk *packages.Package, call *ast.CallExpr) interface{} {
 		}
 	}
 	if fn == nil {
+		// a function value bound to a method expression: op(bs, cp)
+		if id, ok := ast.Unparen(call.Fun).(*ast.Ident); ok {
+			if fv, ok := e.locals[info.Uses[id]].(tvFunc); ok && len(call.Args) >= 1 {
+				if r, ok := e.eval(pk, call.Args[0]).(*tvBitset); ok {
+					as, ok := e.args(pk, call.Args[1:])
+					if ok && len(as) == 1 {
+						switch fv.full {
+						case "(*github.com/bits-and-blooms/bitset.BitSet).Set":
+							r.bits[as[0]] = true
+							return r
+						case "(*github.com/bits-and-blooms/bitset.BitSet).Clear":
+							delete(r.bits, as[0])
+							return r
+						}
+					}
+				}
+			}
+		}
 		return e.unk("call of a non-function", call, pk)
 	}
 	full := fn.FullName()
+	if tabPrimitive[full] && e.depth < 4 {
+		// read the constructor's meaning off its body when the evaluator can; otherwise assume it (TAB-ctor then checks
+		// the body's shape)
+		mark := len(e.unknown)
+		if v, ok := e.callHelper(pk, call, fn, recv); ok {
+			if ps, isPES := v.(*tvPES); isPES && len(e.unknown) == mark {
+				if e.interpreted == nil {
+					e.interpreted = map[string]bool{}
+				}
+				e.interpreted[full] = true
+				return ps
+			}
+		}
+		e.unknown = e.unknown[:mark]
+		if e.assumed == nil {
+			e.assumed = map[string]bool{}
+		}
+		e.assumed[full] = true
+	}
 	if fn.Pkg() != nil && strings.HasPrefix(fn.Pkg().Path(), core.ModPath) && !tabPrimitive[full] {
 		if v, ok := e.callHelper(pk, call, fn, recv); ok {
 			return v
@@ -509,7 +662,27 @@ func (e *tabEnv) exec(pk *packages.Package, st ast.Stmt) {
 		}
 		e.returned = true
 	case *ast.RangeStmt:
-		xs, ok := e.eval(pk, x.X).([]int64)
+		rv := e.eval(pk, x.X)
+		if lst, ok := rv.(tvList); ok && x.Tok == token.DEFINE {
+			var vv types.Object
+			if id, ok := x.Value.(*ast.Ident); ok && id.Name != "_" {
+				vv = info.Defs[id]
+			}
+			for _, v := range lst {
+				if vv != nil {
+					e.locals[vv] = v
+				}
+				e.exec(pk, x.Body)
+				if e.returned {
+					break
+				}
+			}
+			if vv != nil {
+				delete(e.locals, vv)
+			}
+			return
+		}
+		xs, ok := rv.([]int64)
 		if !ok || x.Tok != token.DEFINE {
 			e.unk("range over something other than a list of code points", st, pk)
 			return
@@ -660,6 +833,8 @@ func (e *tabEnv) Global(pkg, name string) (interface{}, types.Object) {
 
 // predDenotation computes {x : method(x) is true} for a PercentEncodeSet method with one rune/byte parameter,
 // given the abstract value of the receiver.
+var depthPred int
+
 func predDenotation(c *Ctx, method string, p *tvPES) (iset, error) {
 	fn := c.P.Func("url", "PercentEncodeSet", method)
 	if fn == nil {
@@ -785,6 +960,22 @@ func predDenotation(c *Ctx, method string, p *tvPES) (iset, error) {
 			if sel, ok := y.Fun.(*ast.SelectorExpr); ok && sel.Sel.Name == "Test" && recvField(sel.X) == "bs" && len(y.Args) == 1 && isParam(y.Args[0]) {
 				if f, _ := info.Uses[sel.Sel].(*types.Func); f != nil && f.FullName() == "(*github.com/bits-and-blooms/bitset.BitSet).Test" {
 					return p.bs.iset().intersect(dom), nil
+				}
+			}
+			// p.OtherPredicate(T(param)): the sibling's denotation, on this predicate's domain
+			if sel, ok := y.Fun.(*ast.SelectorExpr); ok && len(y.Args) == 1 && isParam(y.Args[0]) {
+				if id, ok := ast.Unparen(sel.X).(*ast.Ident); ok && info.Uses[id] == recv && sel.Sel.Name != method {
+					if f, _ := info.Uses[sel.Sel].(*types.Func); f != nil && f.Pkg() == pk.Types {
+						if depthPred < 3 {
+							depthPred++
+							d, err := predDenotation(c, sel.Sel.Name, p)
+							depthPred--
+							if err != nil {
+								return nil, err
+							}
+							return d.intersect(dom), nil
+						}
+					}
 				}
 			}
 		case *ast.Ident:
